@@ -462,7 +462,9 @@ fn gen_sys(src: &mut Src) -> Sys {
     for i in 0..n {
         for j in 0..n {
             if i != j {
-                a[i][j] = src.f64_in(-1.0, 1.0);
+                // exact zeros among the off-diagonal entries (sparse Jacobians: pivot columns with zero candidates)
+                let v = src.f64_in(-1.0, 1.0);
+                a[i][j] = if src.below(3) == 0 { 0.0 } else { v };
             }
         }
         let s: f64 = a[i].iter().map(|v| v.abs()).sum();
